@@ -29,7 +29,7 @@ ASSUMPTIONS = [
     '(receiver metadata-free or both functions None, union/union)',
 ]
 ANCHORS = ['Table.merge', 'Table._fast_merge', 'Table._union_id_order', 'Table._intersect_id_order', 'prefer_self']
-REQUIRED = ['operand_list_reused', 'empty_axis_operand_cases', 'empty_axis_operand_merged', 'wide_universe_cases', 'fast_path_taken', 'general_path_taken', 'path_agreement_checked',
+REQUIRED = ['other_containers_of_tables', 'operand_list_reused', 'empty_axis_operand_cases', 'empty_axis_operand_merged', 'wide_universe_cases', 'fast_path_taken', 'general_path_taken', 'path_agreement_checked',
             'md_tap_calls_checked', 'empty_intersection_refused',
             'list_form', 'overlap_partial', 'overlap_disjoint',
             'overlap_nested', 'overlap_identical', 'mode_union_union',
@@ -200,8 +200,19 @@ def run_case(ctx, index):
     before_b = snap.snap(tb)
     n0 = ctx.fast_calls[0]
     arg = [tb] + extra if use_list else tb
+    container = 'list'
     if use_list:
         ctx.count('list_form')
+        # "an iterable of tables": other containers, also ones that can be
+        # walked only once, are either merged like the list or refused
+        container = r.choice(['list', 'list', 'tuple', 'generator',
+                              'iterator'])
+        desc['container'] = container
+        if container != 'list':
+            listed = arg
+            arg = {'tuple': tuple, 'iterator': iter,
+                   'generator': lambda x: (t_ for t_ in x)}[container](listed)
+            ctx.count('other_containers_of_tables')
     so = set(ao) | set(bo) if omode == 'union' else set(ao) & set(bo)
     ss = set(as_) | set(bs) if smode == 'union' else set(as_) & set(bs)
     if use_list:
@@ -211,6 +222,11 @@ def run_case(ctx, index):
     try:
         res = ta.merge(arg, sample=smode, observation=omode, **kw)
     except Exception as e:
+        if container != 'list' and so and ss:
+            ctx.count('other_container_refused')
+            oracles.unchanged(ta, before_a, 'C09/refused-but-modified', desc)
+            ctx.case(desc, True)
+            return
         if emptied and so and ss:
             # merging an operand without observations / samples may be
             # refused; what counts is that no wrong table comes back
@@ -232,7 +248,7 @@ def run_case(ctx, index):
                         'case=%r' % (desc,))
     fast = ctx.fast_calls[0] > n0
     ctx.count('fast_path_taken' if fast else 'general_path_taken')
-    if use_list:
+    if use_list and container == 'list':
         # the caller's list is an input too: it comes back as it went in and
         # can be used again for the same call
         expect = [tb] + extra
